@@ -71,8 +71,7 @@ theorem validDraws_nodup (n : Nat) : (validDraws n).Nodup := by
       · intro j _
         exact (List.nodup_map_iff (fun a b h => by injection h)).2 ih
       · exact List.Pairwise.imp_of_mem (R := (· ≠ ·)) (by
-          intro a b _ _ hab
-          intro x hx1 hx2
+          intro a b _ _ hab x hx1 hx2
           rcases List.mem_map.1 hx1 with ⟨c1, _, rfl⟩
           rcases List.mem_map.1 hx2 with ⟨c2, _, h2⟩
           injection h2 with h3 _
